@@ -120,6 +120,12 @@ def run(ctx):
     for c in c10.random_inputs(ctx, 400 if quick else 6000, 14 if quick else 30) + c10.fixture_inputs(ctx, 200 if quick else 3000):
         tol, smart = ctx.rng.choice(MODES)
         cases.append(mk("b:" + c["id"], bytes(c["src"]), tol, smart))
+    if not quick:
+        # coverage-guided exploration of the real parser + printer; the corpus is judged in all four modes
+        seeds = c10.FRAGS + [bytes(c["src"]) for c in cases[::max(1, len(cases) // 400)] if len(c["src"]) <= 100]
+        for i, b in enumerate(ctx.fuzz("FuzzParse", int(os.environ.get("VERIF_FUZZ_SECONDS", "120")), seeds)):
+            for (tol, smart) in MODES:
+                cases.append(mk("fz%d:%d%d" % (i, tol, smart), b, tol, smart))
     seen, uniq = set(), []
     for c in cases:
         k = (bytes(c["src"]), c["cfg"]["tolerant"], c["cfg"]["smart"])
@@ -157,7 +163,7 @@ def run(ctx):
     ctx.assumptions += ["error ranges are judged against the token list the REAL lexer returns for the same input",
                         "the no-panic / termination clause is decided by the Go watchdog (recover + 5 s budget per case)"]
     ctx.finish(LEVEL, "token strings: every string <= MaxLen over the cfg's token kinds, space- and newline-separated, x 4 parser modes; every single-token deletion / duplication / swap / replacement / insertion (cfg MutKinds) on every sequence of <= MaxStmts statement templates "
-               "(TLC export) + seeded random byte-level fragment sequences and mutated fixtures; non-trivial = distinct inputs of >= 3 bytes",
+               "(TLC export) + seeded random byte-level fragment sequences and mutated fixtures (+ thorough: the corpus of a coverage-guided fuzzing run on the real parser and printer, in all four modes); non-trivial = distinct inputs of >= 3 bytes",
                exhaustive=True)
 
 
